@@ -4,6 +4,7 @@ from __future__ import annotations
 import copy
 
 import common as C
+import fault_probes as FP
 import engine_common as E
 import engine_extract
 from engine_common import M, seq
@@ -375,11 +376,20 @@ def make_gen(keys_fn=None):
     return gen
 
 
+def _probe_docs(sc, o):
+    return [(sig, what) for sig, what in check_docs(o["docs"])]
+
+
+PROBE_JUDGES = [FP.every_run_closed_once, _probe_docs]
+
+
 def run(ctx, model=True):
     extra = fixed_scenarios()
     if ctx.tier != "thorough" and not ctx.deep:
         extra = extra[:: 4]
-    return E.run_property(ctx, "C01", oracle, gen=make_gen(), quick=110, thorough=2400, model=model, extra_scenarios=extra)
+    res = E.run_property(ctx, "C01", oracle, gen=make_gen(), quick=110, thorough=2400, model=model, extra_scenarios=extra)
+    FP.run_probes(ctx, res, PROBE_JUDGES, ["close"], 40, 800)
+    return res
 
 
 def run_impl_only(ctx):
@@ -387,4 +397,6 @@ def run_impl_only(ctx):
 
 
 def replay(ctx, data):
+    if FP.is_probe(data):
+        return FP.replay_probe(ctx, data, PROBE_JUDGES)
     return E.replay_property(ctx, data, oracle)
